@@ -51,6 +51,12 @@ func c19Expressions(thorough bool) []c19Expr {
 			add("let $x = "+b1+" in "+body, "let1/"+t)
 			// use after the body has ended
 			add("[let $x = "+b1+" in "+body+", $x]", "after-body/"+t)
+			// ... also inside a filter, a projection and an expression reference, where the variable is looked up per element
+			add("[let $x = "+b1+" in "+body+", a[?b == $x]]", "after-body-in-filter/"+t)
+			add("[a[?b == $x].b, let $x = "+b1+" in "+body+"]", "before-let-in-filter/"+t)
+			add("[let $x = "+b1+" in "+body+", a[*].[$x]]", "after-body-in-projection/"+t)
+			add("[let $x = "+b1+" in "+body+", map(&$x, a)]", "after-body-in-expref/"+t)
+			add("[let $x = "+b1+" in "+body+", a[?@ == $x || b == $x]]", "after-body-in-filter-or/"+t)
 			// the let under a context-changing construct
 			add("a[*].[let $x = "+b1+" in "+body+"]", "let-in-projection/"+t)
 			add("a | (let $x = "+b1+" in "+body+")", "let-after-pipe/"+t)
